@@ -322,6 +322,12 @@ def _task(arg):
         judge(ws, cost, w, edits, acc, (idx, cost, len(seen)))
         if cost == 2 and len(acc.samples) < 2:
             acc.sample({"class": ws.path, "edits": [list(e) for e in edits], "wire": short(w, 300)})
+    # one more deviation per string / bytes / records slot: a payload of 2 MiB + 4321 bytes (not combined with others)
+    for n, w in enumerate(values.huge_instances(ex.tree)):
+        acc.add("states")
+        acc.add("distinct_nontrivial")
+        acc.add("huge_payload_instances")
+        judge(ws, 1, w, (("huge", n),), acc, (idx, 1, 10**7 + n))
     acc.add("edit_sets", ex.edit_sets)
     acc.add("transitions", ex.transitions)
     acc.add("classes")
